@@ -152,6 +152,11 @@ def boundary_cfgs(thorough):
         ("laplace", "hypersingular", "T5", ("P", 1, {"include_boundary_dofs": True}), ("P", 1, {"include_boundary_dofs": True}), 1, False),
         ("helmholtz", "electric_field", "T2", ("RWG", 0, {"include_boundary_dofs": True}), ("SNC", 0, {"include_boundary_dofs": True}), 1, False),
         ("modified_helmholtz", "single_layer", "T9", ("DP", 1, seg([1])), ("P", 1, seg([0, 1], include_boundary_dofs=True)), 1, False),
+        # test and trial spaces on DIFFERENT grids (no singular part, no near-field correction; target-side data must come from the test grid)
+        ("helmholtz", "hypersingular", ("T2", "T2"), ("P", 1, {"include_boundary_dofs": True}), ("P", 1, {"include_boundary_dofs": True}), 1, False),
+        ("laplace", "adjoint_double_layer", ("T2", "T1"), ("DP", 0, {}), ("DP", 1, {}), 1, True),
+        # hypersingular / Maxwell on segment spaces (curl, RWG and divergence point maps of restricted spaces)
+        ("laplace", "hypersingular", "T9", ("P", 1, seg([1, 2], include_boundary_dofs=True)), ("P", 1, seg([1, 2], include_boundary_dofs=True)), 1, False),
     ]
     if thorough:
         out += [
@@ -160,6 +165,9 @@ def boundary_cfgs(thorough):
             ("helmholtz", "double_layer", "T7", ("P", 1, {}), ("P", 1, seg([0, 2], include_boundary_dofs=True)), 2, False),
             ("helmholtz", "electric_field", "T4", ("RWG", 0, {}), ("SNC", 0, {}), 2, True),
             ("laplace", "adjoint_double_layer", "T6", ("DP", 0, {}), ("DP", 1, {}), 1, False),
+            ("modified_helmholtz", "hypersingular", ("T2", "T2"), ("P", 1, {"include_boundary_dofs": True}), ("P", 1, {"include_boundary_dofs": True}), 2, True),
+            ("helmholtz", "electric_field", "T9", ("RWG", 0, seg([1, 2], include_boundary_dofs=True)), ("SNC", 0, seg([1, 2], include_boundary_dofs=True)), 1, False),
+            ("helmholtz", "double_layer", ("T4", "T2"), ("P", 1, {}), ("DP", 0, {}), 1, False),
         ]
     return out
 
@@ -188,7 +196,12 @@ def run(ctx):
             ABS.reset()
             fa.clear_fmm_cache()
             fam = fams[mode]
-            g = W.symgrid(mesh, tag="f%d" % ci)
+            if isinstance(mesh, tuple):
+                g = W.symgrid(mesh[0], tag="f%d" % ci)
+                g2 = W.symgrid(mesh[1], tag="h%d" % ci)
+                mesh = "%s->%s" % mesh
+            else:
+                g = g2 = W.symgrid(mesh, tag="f%d" % ci)
             W.set_orders(order, 1)
             b.GLOBAL_PARAMETERS.fmm.dense_evaluation = dense_eval
             prefix = {"laplace": "laplace", "helmholtz": "helmholtz", "modified_helmholtz": "modified_helmholtz"}[mode]
@@ -200,7 +213,7 @@ def run(ctx):
             params = {"mode": mode, "op": op, "mesh": mesh, "trial": list(trial), "test": list(test), "order": order, "dense_evaluation": dense_eval}
             with W.patched(*tr):
                 dom = b.function_space(g, trial[0], trial[1], **trial[2])
-                dual = b.function_space(g, test[0], test[1], **test[2])
+                dual = b.function_space(g2, test[0], test[1], **test[2])
                 if op == "electric_field":
                     mk = lambda a: b.operators.boundary.maxwell.electric_field(dom, dom, dual, *args, assembler=a)
                 else:
@@ -223,7 +236,7 @@ def run(ctx):
             if ci == 0:
                 ctx.twin("twin/fmm-without-one-source", eq_formula(yf[0], yd[0] + x[0] * fam.val(0, list(g.data().vertices[:, 0]), list(g.data().vertices[:, 5]))), [], abs_cons=False)
             ctx.sample({"config": params, "rows": n, "encode_s": round(time.time() - t0, 2)})
-            if ctx.thorough or ci in (1, 2, 4):
+            if ctx.thorough or ci in (2, 4, 6, 8):
                 ctx.concrete("fmm_vs_dense/%d" % ci, "fmm_vs_dense", params)
             ctx.log("bnd%d %s %s %s: %d rows %.1fs" % (ci, mode, op, mesh, n, time.time() - t0))
 
@@ -353,8 +366,17 @@ def concrete(family, params):
             c = {"sl": h[0], "dl": -(h[1:4] @ ny), "adl": h[1:4] @ nx}[nm]
             worst = max(worst, abs(a - c) / abs(c))
         return {"gap": worst if worst > 1e-10 else 0.0, "key": "kernel_lemma/%s/%s" % (mode, nm)}
-    v, e, d = W.mesh(params["mesh"])
-    g = b.Grid(np.asarray(v, dtype=float), np.asarray(e), np.asarray(d, dtype="uint32"))
+    mname = params["mesh"]
+    if "->" in mname:
+        m1, m2 = mname.split("->")
+        v, e, d = W.mesh(m1)
+        g = b.Grid(np.asarray(v, dtype=float), np.asarray(e), np.asarray(d, dtype="uint32"))
+        v, e, d = W.mesh(m2)
+        rot = np.array([[0.8, -0.6, 0.0], [0.6, 0.8, 0.0], [0.0, 0.0, 1.0]]) @ np.array([[1.0, 0, 0], [0, 0.0, -1.0], [0, 1.0, 0.0]])
+        g2 = b.Grid(rot @ (np.asarray(v, dtype=float) * np.array([[1.0], [0.7], [1.3]])) + np.array([[4.0], [0.5], [1.0]]), np.asarray(e), np.asarray(d, dtype="uint32"))
+    else:
+        v, e, d = W.mesh(mname)
+        g = g2 = b.Grid(np.asarray(v, dtype=float), np.asarray(e), np.asarray(d, dtype="uint32"))
     b.GLOBAL_PARAMETERS.quadrature.regular = params["order"]
     b.GLOBAL_PARAMETERS.quadrature.singular = 1
     mode = params["mode"]
@@ -363,7 +385,7 @@ def concrete(family, params):
     if family == "fmm_vs_dense":
         tr, te = params["trial"], params["test"]
         dom = b.function_space(g, tr[0], tr[1], **tr[2])
-        dual = b.function_space(g, te[0], te[1], **te[2])
+        dual = b.function_space(g2, te[0], te[1], **te[2])
         if params["op"] == "electric_field":
             mk = lambda a: b.operators.boundary.maxwell.electric_field(dom, dom, dual, *args, assembler=a)
         else:
